@@ -86,7 +86,8 @@ func atPosition(br *bufio.Reader, blob []byte, n int) bool {
 // Detect a handful of package and signature file types based on the first few
 // bytes of the file contents.
 func Detect(r io.Reader) FileType {
-	br := bufio.NewReader(r)
+	// large enough for the PE probe below at any 16-bit e_lfanew
+	br := bufio.NewReaderSize(r, 0x10000+4)
 	switch {
 	case hasPrefix(br, []byte{0xed, 0xab, 0xee, 0xdb}):
 		return FileTypeRPM
@@ -104,8 +105,8 @@ func Detect(r io.Reader) FileType {
 		return detectTar(br)
 	case hasPrefix(br, []byte("MZ")):
 		if blob, _ := br.Peek(0x3e); len(blob) == 0x3e {
-			reloc := binary.LittleEndian.Uint16(blob[0x3c:0x3e])
-			if blob, err := br.Peek(int(reloc) + 4); err == nil {
+			reloc := int(binary.LittleEndian.Uint16(blob[0x3c:0x3e]))
+			if blob, err := br.Peek(reloc + 4); err == nil {
 				if bytes.Equal(blob[reloc:reloc+4], []byte("PE\x00\x00")) {
 					return FileTypePECOFF
 				}
